@@ -1,5 +1,5 @@
 (* C18 — a schematic shows the circuit that exists: every block once, wired as built.
-   Statements only; proofs are in Proofs/C18/Sound.v (validator soundness) and Proofs/C18/Examples.v (real dumped layouts).
+   Statements only; proofs are in Proofs/C18/Sound.v (validator soundness), Proofs/C18/Complete.v (completeness) and Proofs/C18/Examples.v (real dumped layouts).
 
    Technique: translation validation with a PROVED checker.  The heuristic placer (py4hw/schematic.py) is not
    modelled; on every run the real  Schematic(obj)  is executed, its result and the block's real connectivity are
@@ -8,7 +8,7 @@
    clause is an inductive path relation — the fuel-bounded reachability closure is proved, not trusted. *)
 From Coq Require Import List ZArith Bool Arith.
 Import ListNotations.
-From V Require Import Model.Schem Spec.C18 Proofs.C18.Sound Proofs.C18.Examples.
+From V Require Import Model.Schem Spec.C18 Proofs.C18.Sound Proofs.C18.Complete Proofs.C18.Examples.
 
 (* the dumped connectivity is one: distinct wire ids, every wire driven by a block in-port or a child output pin, read
    by child input pins / block out-ports, and no pin on two wires *)
@@ -22,6 +22,15 @@ Proof. exact circ_ok_sound. Qed.
    symbol that stands for the pin's owner *)
 Theorem C18_check_sound : forall c l, schem_ok c l = true -> SchemOK c l.
 Proof. exact schem_ok_sound. Qed.
+
+(* conversely the validator never rejects a schematic that satisfies the declarative statement (no false alarm relative
+   to Spec/C18.v): the closure reaches its fixpoint within the fuel 2|E|+2 and a fixpoint that contains the driver
+   contains every point connected to it *)
+Theorem C18_check_complete : forall c l, SchemOK c l -> schem_ok c l = true.
+Proof. exact schem_ok_complete. Qed.
+
+Theorem C18_check_decides : forall c l, schem_ok c l = true <-> SchemOK c l.
+Proof. exact schem_ok_iff. Qed.
 
 (* the closure computed by the validator contains only points connected (Spec.C18.connected) to the start set *)
 Theorem C18_reach_sound :
@@ -52,5 +61,7 @@ Proof. exact (conj ex_selfloop_rejected ex_selfloop_not_SchemOK). Qed.
 
 Print Assumptions C18_circ_check_sound.
 Print Assumptions C18_check_sound.
+Print Assumptions C18_check_complete.
+Print Assumptions C18_check_decides.
 Print Assumptions C18_reach_sound.
 Print Assumptions C18_selfloop_refuted.
